@@ -139,6 +139,50 @@ def validator_cases(report, drv):
         report.count("validator_" + name)
 
 
+def dynamic_verdict_cases(report, drv):
+    """dynamic_lists.is_pubkey_allowed over every combination of allow list x deny list x author, overlapping lists included:
+    admitted iff (no allow list in force or on it) and not on the deny list"""
+    import itertools
+    from nostr_relay import dynamic_lists as dl
+    from nostr_relay.config import Config
+    from nostr_relay.errors import StorageError
+
+    keys = [A, B, C]
+    subsets = [list(x) for n in range(0, 4) for x in itertools.combinations(keys, n)]
+    old = (dl.ALLOWED_PUBKEYS, dl.DENIED_PUBKEYS)
+    try:
+        for allowed in subsets:
+            for denied in subsets:
+                for pk in keys:
+                    dl.ALLOWED_PUBKEYS = {bytes.fromhex(x) for x in allowed}
+                    dl.DENIED_PUBKEYS = {bytes.fromhex(x) for x in denied}
+                    try:
+                        dl.is_pubkey_allowed(types.SimpleNamespace(pubkey=pk), Config)
+                        v = "ok"
+                    except StorageError as ex:
+                        v = "reject"
+                        if not str(ex):
+                            report.property_failure("is_pubkey_allowed refuses without a reason", {"validator": "is_pubkey_allowed"}, None)
+                    except Exception:
+                        v = "raises"
+                    payload = {"validator": "is_pubkey_allowed", "allowed": allowed, "denied": denied, "pubkey": pk}
+                    mv = drv.call({"op": "adm.validator", "name": "is_pubkey_allowed", "cfg": model_cfg(cfg()), "ev": model_ev(mk_ev(pubkey=pk)),
+                                   "now": NOW, "allowed": allowed, "denied": denied})
+                    if mv != v:
+                        report.correspondence_break("dynamic_lists.is_pubkey_allowed", payload, v, mv)
+                    want = (not allowed or pk in allowed) and pk not in denied
+                    if (v == "ok") != want:
+                        report.property_failure(
+                            "is_pubkey_allowed %s an author who is %s the allow list (%d keys) and %s the deny list (%d keys)"
+                            % ("admits" if v == "ok" else "refuses", "on" if pk in allowed else "not on", len(allowed),
+                               "on" if pk in denied else "not on", len(denied)), payload, None)
+                    report.case(("is_pubkey_allowed", repr(allowed), repr(denied), pk), nontrivial=bool(allowed or denied),
+                                sample={"validator": "is_pubkey_allowed", "verdict": v})
+                    report.count("validator_is_pubkey_allowed")
+    finally:
+        dl.ALLOWED_PUBKEYS, dl.DENIED_PUBKEYS = old
+
+
 def pipeline_cases(report, rng, tier):
     """the real pipeline through add_event: a violating event is refused, with a reason, without trace"""
     from nostr_relay.config import Config
@@ -316,7 +360,8 @@ def run(report, tier, seed):
     asyncio.set_event_loop(loop)
     report.coverage["rule"] = (
         "every validator at bound-1/bound/bound+1 and beyond (content length, age both ways, kinds, lists, PoW bits, p-tag "
-        "count for kinds 1/7/other with limit 0/3, service kind) under an injected clock; the real pipeline of six "
+        "count for kinds 1/7/other with limit 0/3, service kind) under an injected clock; the dynamic allow / deny validator over every "
+        "pair of subsets of three keys (overlapping lists included) x author; the real pipeline of six "
         "validators through add_event on both backends with one or two violated policies; dynamic list refreshes with an "
         "instrumented set (probe before/after every set operation and at every await of the query loop), old list empty / "
         "non-empty, new result empty / several chunks, static whitelist on/off, deny list on/off")
@@ -328,6 +373,7 @@ def run(report, tier, seed):
             if "allow_old" in r:
                 dynamic_case(report, drv, rng, r["allow_old"], r["allow_new"], r["deny_new"], r["whitelist"], r["outsider"])
         validator_cases(report, drv)
+        dynamic_verdict_cases(report, drv)
         pipeline_cases(report, rng, tier)
         keys = [("%02x" % i) * 32 for i in range(1, 9)]
         for i in range(60 if tier == "quick" else 1500):
